@@ -60,7 +60,7 @@ NEPS_PER_CASE = 6
 def plan(tier):
     if tier == 'thorough':
         return dict(shards=16, cases=1200, timeout=2400, budget_s=540)
-    return dict(shards=8, cases=60, timeout=600, budget_s=65)
+    return dict(shards=8, cases=45, timeout=600, budget_s=55)
 
 
 def selftest():
